@@ -89,8 +89,9 @@ def radixOf (c : DigitClass) : Option (Nat × Bool) :=
   | .dec | .dflt => some (10, false)
   | .chr => none
 
-/-- `format_numeric_s<int_T>`: the magnitude is `static_cast<uint_T>(std::abs(value))`
-    (after the repair of the most negative value — defect 12, C12 — the unsigned negation) -/
+/-- `format_numeric_s<int_T>`: the magnitude is `value < 0 ? 0 - uint_T(value) : uint_T(value)`
+    (repair of defect 12: the pinned `std::abs` was undefined for the most negative value), which
+    is the mathematical absolute value for every value of the type, `−2^(w−1)` included -/
 def formatNumericS (f : FormatSpec) (value : Int) : Outcome (List Event) :=
   match radixOf f.digitClass with
   | none => .assertFail "Invalid digit class for _format_numeric_s"
@@ -136,16 +137,18 @@ def formatString (f : FormatSpec) (text : List Nat) : List Event :=
     else [.append (text.take size), .appendChar pad n]
   else [.append (text.take size)]
 
-def floatBufferMsg : String := "Format buffer too small"
+def libcSizeMsg : String := "Your libc doesn't support reporting format size"
 
 /-- `format_type(…, double)`: the rendering is `snprintf`'s answer for the assembled format
-    (opaque, C13); the 64-byte buffer assertion and the padding are the library's -/
+    (opaque, C13).  `format_size > 0` is asserted (an empty `render` stands for a non-positive
+    return value); a rendering of 64 bytes or more does not fit `out_buffer` and is produced again
+    in `heap_buffer`, allocated with the reported size (repair of defect 13) — either way `text`
+    points at the whole rendering, which is what is appended; the padding is the library's. -/
 def formatFloat (f : FormatSpec) (render : Bool → Option Nat → FloatClass → List Nat) : Outcome (List Event) :=
   let pad := padOf f
   let prec : Option Nat := if f.precision ≥ 0 then some f.precision.toNat else none
   let text := render f.alwaysSigned prec f.floatClass
-  if text.length = 0 then .assertFail "Your libc doesn't support reporting format size"
-  else if text.length ≥ 64 then .assertFail floatBufferMsg
+  if text.length = 0 then .assertFail libcSizeMsg
   else if f.minimumLength > (text.length : Int) then
     let n := wrap64 (f.minimumLength - (text.length : Int))
     if f.alignment = .left then .ok [.append text, .appendChar pad n]
